@@ -261,6 +261,38 @@ def r_data(repo, rep, R='R17.3', only_well_formed=False):
                     missing.add(c)
         w = '%s:1 <data>' % rel
         rep.check(not bad, R, w, cfg + ':well-formed', 'every category string reachable from %s is well formed' % cfg, 'ill-formed category strings: %s' % bad[:5])
+        # three-part features name their slots: the names used in the rule tables are those of the tagger's inventory for
+        # the same base (a table row with `from=` for `form=` parses, prints back unchanged and never matches anything)
+        def key_triples(s):
+            out = set()
+            try:
+                c = df.parse_cat(s)
+            except df.CatError:
+                return out
+            todo = [c]
+            while todo:
+                x = todo.pop()
+                if x[0] == 'fn':
+                    todo += [x[1], x[3]]
+                else:
+                    fp = df.feature_pairs(x)
+                    if fp:
+                        out.add((x[1], tuple(k for k, _v in fp)))
+            return out
+        known = set()
+        for x in v['targets']:
+            known |= key_triples(x)
+        if known:
+            odd = []
+            rows = [('seen_rules', s_) for r_ in v['seen_rules'] for s_ in r_] + [('unary_rules', s_) for r_ in v['unary_rules'] for s_ in r_] + \
+                [('binary_rules', s_) for r_ in (v.get('binary_rules') or []) for s_ in r_[:3]]
+            known_keys = {ks for _b, ks in known}
+            for where, s_ in rows:
+                for base, ks in key_triples(s_):
+                    if ks not in known_keys:
+                        odd.append('%s: %s has a feature with slots %s' % (where, s_, list(ks)))
+            rep.check(not odd, R, w, cfg + ':feature-slots', 'the three-part features of the rule tables of %s use the slot names of the inventory (%s)' % (cfg, sorted(known_keys)),
+                      'feature slots unknown to the inventory: %s' % odd[:3])
         if only_well_formed:
             continue
         dups = sorted({t for t in targets if t is not None and targets.count(t) > 1}) if len(set(targets)) != len(targets) else []
@@ -328,6 +360,8 @@ def check(repo, rep, tier):
     cm = repo.module('depccg/cat.py')
     c13.r_dataclass(cm, rep, 'R17.3')
     c13.r_eq(cm, rep, 'R17.3')
+    from ..lints import r_oneshot_iterators
+    r_oneshot_iterators(repo, rep, 'R17.2', ['depccg/parsing.py'], 'a membership test against it is true only for words met further on than the last hit: dictionary words are silently left unrestricted')
     from .c18 import r_token_accessors
     r_token_accessors(repo, rep, 'R17.2', 'a value kept from the first read of token.word hides a later change of the word from the dictionary lookup')
     n = r_data(repo, rep)
